@@ -48,6 +48,21 @@ def gen(rng, tier):
             ops += ["timecheck now=%d" % (t0 + t), "all svc=ns|g|s9-out", "all svc=ns|g|s1"]
         ops.append("audit")
         cases.append(Case("range-moves-%s" % when, ops, True, "directed"))
+    # an HTTP instance this node learned from another node (replicated, from_cluster > 0) whose client now talks to this
+    # node - a heartbeat or a re-registration arrives here, as after the owner's failure or a range move - is this node's
+    # to expire from then on: silent afterwards, it must turn unhealthy and be removed; a beating neighbour as control
+    for tag in ("none", "-"):
+        for fc in (2, 3):
+            for first in (3000, 17000, 25000):
+                t0 = 1000
+                ops = ["upd svc=ns|g|s1 ip=10.0.0.1 port=80 eph=1 grpc=0 fc=%d cid=- healthy=1 en=1 w=1000 tag=- sync=1 now=%d" % (fc, t0),
+                       "upd svc=ns|g|s1 ip=10.0.0.2 port=80 eph=1 grpc=0 fc=0 cid=- healthy=1 en=1 w=1000 tag=- sync=0 now=%d" % t0,
+                       "upd svc=ns|g|s1 ip=10.0.0.1 port=80 eph=1 grpc=0 fc=0 cid=- healthy=1 en=1 w=1000 tag=%s sync=0 now=%d" % (tag, t0 + first)]
+                for t in (first + 6000, first + 12000, first + 19000, first + 26000, first + 34500, first + 37000):
+                    ops.append("upd svc=ns|g|s1 ip=10.0.0.2 port=80 eph=1 grpc=0 fc=0 cid=- healthy=1 en=1 w=1000 tag=none sync=0 now=%d" % (t0 + t - 500))
+                    ops += ["timecheck now=%d" % (t0 + t), "all svc=ns|g|s1"]
+                ops.append("audit")
+                cases.append(Case("adopted-%s-fc%d-%d" % ("beat" if tag == "none" else "reg", fc, first), ops, True, "directed"))
     for i in range(200 if big else 30):
         cases.append(Case("Mreg-%d" % i, g.gen_mixed(rng, rng.randrange(4, 30)), False, "random"))
     return cases
